@@ -164,6 +164,18 @@ func cmdLoadHist(args []string) {
 			}
 			text, _ := sch.DocText(st.Doc)
 			cs := map[string]interface{}{"history": histText(h, si), "step": si + 1, "document": text, "tag": h.Tag}
+			if !reflRoot && (hi+si)%2 == 0 {
+				// Loader!Registration: registrations that must be refused, a stuttering step (regprobe.go); what follows judges the root
+				asked, accepted := refusedRegistrations(root)
+				if asked > 0 {
+					rep.Class("refused-registrations")
+					cs["registrations"] = "refused registrations were asked for after this load"
+				}
+				for _, a := range accepted {
+					cs["aspect"] = "schema"
+					rep.Mismatch(vh.Mismatch{Case: copyCase(cs), Step: si + 1, What: "schema: a registration that names an undeclared argument (or one argument twice) was not refused: " + a})
+				}
+			}
 			if st.Via != "" {
 				cs["via"] = st.Via
 				rep.Class(fmt.Sprintf("via:%s ok=%v %s", st.Via, st.OK, st.Why))
